@@ -291,7 +291,7 @@ Definition cfg_wf (cfg : fscfg) : Prop := base_wf (f_base cfg).
 (* keys are Go strings: shorter than 2^63 after escaping *)
 Definition key_of (o : op) : option key :=
   match o with
-  | OPut k _ | OPutStream k _ | OPutVec k _ | OGet k | OGetStream k | OPeek k | OHas k => Some k
+  | OPut k _ | OPutStream k _ | OPutVec k _ | OGet k | OGetStream k | OPeek k | OHas k | OCommit _ k => Some k
   | _ => None
   end.
 Definition op_len_ok (cfg : fscfg) (o : op) : Prop :=
@@ -393,13 +393,67 @@ Proof.
   split; auto. apply Forall_rev. auto.
 Qed.
 
+(* the staging files of the streams that are open *)
+Definition streams_inside (cfg : fscfg) (st : fstate) : Prop :=
+  forall sid sp, nth_error (fs_str st) sid = Some (Some sp) -> inside (f_base cfg) sp.
+
+Lemma nth_error_upd : forall {A} (l : list A) i j x y, nth_error (upd l i x) j = Some y ->
+  y = x \/ nth_error l j = Some y.
+Proof.
+  induction l; intros [|i] [|j] x y H; simpl in *; auto; try discriminate.
+  - inversion H. auto.
+  - eapply IHl; eauto.
+Qed.
+
+Lemma fs_step_streams : forall cfg st o st' ob log,
+  streams_inside cfg st -> fs_step cfg st o = (st', ob, log) -> streams_inside cfg st'.
+Proof.
+  intros cfg st o st' ob log SI HS.
+  assert (PUT : forall kind k chunks, fs_put cfg st kind k chunks = (st', ob, log) -> fs_str st' = fs_str st).
+  { intros kind k chunks HP. unfold fs_put in HP.
+    destruct (match k with [] => Some None | _ :: _ => match path_for_key cfg k with Some d => Some (Some d) | None => None end end);
+      [|inversion HP; auto].
+    match type of HP with context [w_run ?fu ?env ?f ?pc ?l] => destruct (w_run fu env f pc l) as [[f1 r] lg] end.
+    inversion HP; subst. reflexivity. }
+  assert (SAME : fs_str st' = fs_str st -> streams_inside cfg st').
+  { intros E sid sp H. rewrite E in H. eapply SI; eauto. }
+  destruct o; simpl in HS.
+  - inversion HS; subst. apply SAME. reflexivity.
+  - destruct (fs_handle st h); inversion HS; subst; apply SAME; reflexivity.
+  - destruct (fs_handle st h); [|inversion HS; subst; apply SAME; reflexivity]. apply SAME. eapply PUT; eauto.
+  - destruct (gather (fs_handle st) hs); [|inversion HS; subst; apply SAME; reflexivity]. apply SAME. eapply PUT; eauto.
+  - destruct (gather (fs_handle st) hs); [|inversion HS; subst; apply SAME; reflexivity]. apply SAME. eapply PUT; eauto.
+  - destruct (fs_open cfg (fs_fs st) k) as [[[[c|]|e] lg]|]; inversion HS; subst; apply SAME; reflexivity.
+  - destruct (fs_open cfg (fs_fs st) k) as [[[[c|]|e] lg]|]; inversion HS; subst; apply SAME; reflexivity.
+  - destruct (fs_open cfg (fs_fs st) k) as [[[[c|]|e] lg]|]; inversion HS; subst; apply SAME; reflexivity.
+  - destruct (fs_has cfg (fs_fs st) k). inversion HS; subst. apply SAME. reflexivity.
+  - unfold do_sys in HS.
+    destruct (sys_exec (fs_fs st) (SCreat (stage_path (f_base cfg) (stage_name (fs_ctr st))))) as [f1 r].
+    inversion HS; subst. intros sid sp H. simpl in H.
+    destruct (lt_dec sid (length (fs_str st))) as [L|L].
+    + rewrite nth_error_app1 in H by auto. eapply SI; eauto.
+    + rewrite nth_error_app2 in H by lia. destruct (sid - length (fs_str st))%nat; simpl in H.
+      * destruct r; inversion H. apply stage_inside. apply stage_name_safe.
+      * destruct n; discriminate.
+  - destruct (nth_error (fs_str st) sid) as [[sp|]|]; destruct (fs_handle st h);
+      try (inversion HS; subst; apply SAME; reflexivity).
+    unfold do_sys in HS. destruct (sys_exec (fs_fs st) (SWrite sp l)) as [f1 r].
+    inversion HS; subst. apply SAME. reflexivity.
+  - destruct (nth_error (fs_str st) sid) as [[sp|]|]; try (inversion HS; subst; apply SAME; reflexivity).
+    destruct (match k with [] => Some None | _ :: _ => match path_for_key cfg k with Some d => Some (Some d) | None => None end end);
+      [|inversion HS; subst; apply SAME; reflexivity].
+    match type of HS with context [w_run ?fu ?env ?f ?pc ?l] => destruct (w_run fu env f pc l) as [[f1 r] lg] end.
+    inversion HS; subst. intros sid' sp' H. simpl in H. apply nth_error_upd in H. destruct H as [H|H]; try discriminate.
+    eapply SI; eauto.
+Qed.
+
 Lemma fs_step_inside : forall cfg st o st' ob log,
   escaping cfg -> cfg_wf cfg -> op_len_ok cfg o ->
-  prefixes_dirs (fs_fs st) (f_base cfg) ->
+  prefixes_dirs (fs_fs st) (f_base cfg) -> streams_inside cfg st ->
   fs_step cfg st o = (st', ob, log) ->
   prefixes_dirs (fs_fs st') (f_base cfg) /\ Forall (ev_inside (f_base cfg)) log.
 Proof.
-  intros cfg st o st' ob log HE HW HL HF HS.
+  intros cfg st o st' ob log HE HW HL HF SI HS.
   assert (OPEN : forall k r lg, key_len_ok (enc_key cfg k) ->
             fs_open cfg (fs_fs st) k = Some (r, lg) -> Forall (ev_inside (f_base cfg)) lg).
   { intros k r lg L HO. unfold fs_open in HO.
@@ -436,17 +490,60 @@ Proof.
       destruct (resolve (fs_fs st) (f_base cfg ++ rest)) as [[nd|]|e]; simpl in H;
         inversion H; subst; simpl; repeat constructor; auto. }
     inversion HS; subst. split; auto.
+  - (* open a stream: create the staging file *)
+    unfold do_sys in HS.
+    assert (I : inside (f_base cfg) (stage_path (f_base cfg) (stage_name (fs_ctr st)))).
+    { apply stage_inside. apply stage_name_safe. }
+    pose proof (sys_exec_prefixes (fs_fs st) (f_base cfg) (SCreat (stage_path (f_base cfg) (stage_name (fs_ctr st)))) HF) as P.
+    destruct (sys_exec (fs_fs st) (SCreat (stage_path (f_base cfg) (stage_name (fs_ctr st))))) as [f1 r].
+    inversion HS; subst. simpl. split.
+    + apply P. simpl. constructor; auto.
+    + constructor; auto. unfold ev_inside. simpl. constructor; auto.
+  - (* write to a stream *)
+    destruct (nth_error (fs_str st) sid) as [[sp|]|] eqn:NS; destruct (fs_handle st h) as [c|];
+      try (inversion HS; subst; split; auto; fail).
+    assert (I : inside (f_base cfg) sp) by (eapply SI; eauto).
+    unfold do_sys in HS.
+    pose proof (sys_exec_prefixes (fs_fs st) (f_base cfg) (SWrite sp c) HF) as P.
+    destruct (sys_exec (fs_fs st) (SWrite sp c)) as [f1 r].
+    inversion HS; subst. simpl. split.
+    + apply P. simpl. constructor; auto.
+    + constructor; auto. unfold ev_inside. simpl. constructor; auto.
+  - (* commit a stream: close, move *)
+    destruct (nth_error (fs_str st) sid) as [[sp|]|] eqn:NS; try (inversion HS; subst; split; auto; fail).
+    assert (I : inside (f_base cfg) sp) by (eapply SI; eauto).
+    assert (D : exists d, (match k with
+                | [] => Some None
+                | _ => match path_for_key cfg k with Some d => Some (Some d) | None => None end
+                end) = Some d /\ dest_ok (f_base cfg) d).
+    { destruct k as [|b k'].
+      - exists None. simpl. auto.
+      - destruct (path_for_key_inside cfg (b :: k') HE HL) as [rest [E [N [F L]]]].
+        rewrite E. eexists. split. reflexivity. simpl. exists rest. repeat split; auto. apply L. discriminate. }
+    destruct D as [d [ED DO]]. rewrite ED in HS.
+    match type of HS with context [w_run ?fu ?env ?f ?pc ?l] => destruct (w_run fu env f pc l) as [[f1 r] lg] eqn:R end.
+    inversion HS; subst. simpl.
+    match type of R with w_run _ ?env _ _ _ = _ =>
+      assert (EI : env_inside env) by (split; simpl; auto; intros; apply stage_name_safe);
+      assert (HW' : base_wf (we_base env)) by exact HW;
+      assert (HF' : prefixes_dirs (fs_fs st) (we_base env)) by exact HF;
+      assert (HP' : pc_inside env (WClose sp None)) by exact I;
+      assert (HL' : Forall (ev_inside (we_base env)) []) by constructor;
+      pose proof (w_run_inside _ _ _ _ _ _ _ _ EI HW' HF' HP' HL' R) as [R1 R2]
+    end.
+    split; auto. apply Forall_rev. auto.
 Qed.
 
 Theorem fs_run_inside : forall cfg ops st,
   escaping cfg -> cfg_wf cfg -> Forall (op_len_ok cfg) ops ->
-  prefixes_dirs (fs_fs st) (f_base cfg) ->
+  prefixes_dirs (fs_fs st) (f_base cfg) -> streams_inside cfg st ->
   Forall (res_inside (f_base cfg)) (fs_run cfg st ops).
 Proof.
-  induction ops; intros st HE HW HL HF; simpl. constructor.
+  induction ops; intros st HE HW HL HF SI; simpl. constructor.
   inversion HL; subst.
   destruct (fs_step cfg st a) as [[st1 ob] log] eqn:S.
-  destruct (fs_step_inside cfg st a st1 ob log HE HW H1 HF S) as [F1 F2].
+  destruct (fs_step_inside cfg st a st1 ob log HE HW H1 HF SI S) as [F1 F2].
+  pose proof (fs_step_streams cfg st a st1 ob log SI S) as SI1.
   constructor; auto.
 Qed.
 
@@ -503,4 +600,5 @@ Theorem fs_contained : forall cfg ops,
   Forall (res_inside (f_base cfg)) (fs_run cfg (fstate0 cfg) ops).
 Proof.
   intros. apply fs_run_inside; auto. simpl. apply fs_fresh_prefixes.
+  intros sid sp HX. simpl in HX. destruct sid; discriminate.
 Qed.
